@@ -181,6 +181,38 @@ def _apply_entity_post(kind):
     return check
 
 
+WF_SPEC = {"WORKFLOW_STARTED": ("RUNNING", None), "WORKFLOW_COMPLETED": (None, "SUCCEEDED"), "WORKFLOW_FAILED": (None, "TERMINAL"),
+           "WORKFLOW_CANCELED": ("CANCELED", None), "WORKFLOW_PAUSED": ("PAUSED", None), "WORKFLOW_RESUMED": ("RUNNING", None)}
+
+
+def _apply_workflow_post(ctx):
+    """the replayed workflow status is the one the event states: fixed for started / canceled / paused / resumed, data.status
+    (default SUCCEEDED / TERMINAL) for completed / failed; any other workflow event leaves the status; the stage and task
+    entries are not touched."""
+    I = ctx.I
+    if ctx.exc is not None:
+        return [("no-exception", FALSE)]
+    ev, state = ctx.args["event"], ctx.args["state"]
+    et = I.getattr(ev, "event_type").t
+    etc = I.index.find_class("EventType")
+    data = I.getattr(ev, "data")
+    dh, dv = I.ops.dict_get(data, I.ops.lit("status"))
+    cur = I.ops.to_val(I.getattr(state, "status"))
+    old = z3.If(z3.Bool("wf_status?"), VAL.VNone, VAL.VStr(z3.Int("wf_status")))
+    goals, handled = [], []
+    for name, (fixed, default) in WF_SPEC.items():
+        m = I.enum_member(etc, name).t
+        handled.append(et == m)
+        want = VAL.VStr(I.ops.lit(fixed).t) if fixed is not None else z3.If(dh, I.ops.to_val(dv), VAL.VStr(I.ops.lit(default).t))
+        goals.append((f"{name}.status", z3.Implies(et == m, cur == want)))
+    goals.append(("other-kinds-keep-status", z3.Implies(z3.Not(z3.Or(*handled)), cur == old)))
+    for f in ("stages", "tasks"):
+        d = I.getattr(state, f)
+        rec = I.st.dicts[d.did]
+        goals.append((f"{f}-untouched", z3.BoolVal(rec.kind == "conc" and not rec.items)))
+    return goals
+
+
 # ---- recorder: the status written into the event is the entity's status at call time
 def _recorder_registry():
     reg = replay_registry()
@@ -219,7 +251,7 @@ def _recorded_status(expect_type, entity_param):
         has, v = I.ops.dict_get(data, I.ops.lit("status"))
         name = I.enum_getattr(SEnum("WorkflowStatus", I.getattr(ent, "status").t), "name")
         goals.append(("data-status-is-entity-status", z3.And(has, I.ops.eq(v, name))))
-        idk = "stage_id" if entity_param == "stage" else "task_id"
+        idk = {"stage": "stage_id", "task": "task_id", "workflow": "workflow_id"}[entity_param]
         if idk in kw:
             goals.append(("entity-id", I.ops.eq(kw[idk], I.getattr(ent, "id"))))
         return goals
@@ -272,6 +304,12 @@ def units():
                         params=[("state", (lambda kd: (lambda ctx: _entity_state(ctx, kd)))(kind)), ("event", ("obj", "Event"))],
                         self_type=("obj", "EventReplayer"), names=STATUS_NAMES, registry=replay_registry(), replayable=False,
                         obligations=[Obl(f"C12/apply/{kind}", _apply_entity_post(kind), when="any")]))
+    out.append(Unit(prop="*", name="L3/EventReplayer._apply_workflow_event", func=f"{R}._apply_workflow_event",
+                    params=[("state", lambda ctx: _entity_state(ctx, "workflow")), ("event", ("obj", "Event"))],
+                    self_type=("obj", "EventReplayer"), names=STATUS_NAMES, registry=replay_registry(), replayable=False,
+                    # is_valid(event): a context carried by a workflow event is a mapping (the recorder writes workflow.context)
+                    requires=["'context' not in event.data or isinstance(event.data['context'], dict)"],
+                    obligations=[Obl("C12/apply/workflow", _apply_workflow_post, when="any")]))
     RS = "stabilize.events.recorder.stage_events:StageEventsMixin."
     RT = "stabilize.events.recorder.task_events:TaskEventsMixin."
     rec_params = dict(names=STATUS_NAMES, registry=_recorder_registry(), replayable=False, all_params=True)
@@ -283,6 +321,11 @@ def units():
                     params=[("task", ("obj", "TaskExecution")), ("workflow_id", ("str",))], obligations=[Obl("C12/recorder/task_completed", _recorded_status("TASK_COMPLETED", "task"), when="any")], **rec_params))
     out.append(Unit(prop="*", name="L3/recorder.record_task_failed", func=RT + "record_task_failed", self_type=("obj", "EventRecorder"),
                     params=[("task", ("obj", "TaskExecution")), ("workflow_id", ("str",)), ("error", ("str",))], obligations=[Obl("C12/recorder/task_failed", _recorded_status("TASK_FAILED", "task"), when="any")], **rec_params))
+    RW = "stabilize.events.recorder.workflow_events:WorkflowEventsMixin."
+    out.append(Unit(prop="*", name="L3/recorder.record_workflow_completed", func=RW + "record_workflow_completed", self_type=("obj", "EventRecorder"),
+                    params=[("workflow", ("obj", "Workflow"))], obligations=[Obl("C12/recorder/workflow_completed", _recorded_status("WORKFLOW_COMPLETED", "workflow"), when="any")], **rec_params))
+    out.append(Unit(prop="*", name="L3/recorder.record_workflow_failed", func=RW + "record_workflow_failed", self_type=("obj", "EventRecorder"),
+                    params=[("workflow", ("obj", "Workflow")), ("error", ("str",))], obligations=[Obl("C12/recorder/workflow_failed", _recorded_status("WORKFLOW_FAILED", "workflow"), when="any")], **rec_params))
     return out
 
 
